@@ -481,8 +481,11 @@ func runSeq(nExt int, withInt bool, seq []string) (func(), *stack.Config) {
 					for _, actor := range m.order {
 						a := m.agents[actor]
 						s := c.slots[actor]
-						if !a.external || a.st != agParked || s.busy || s.last == nil || s.last.Status != 200 || stack.EventType(s.last) != "INVOKE" {
+						if a.st != agParked || s.busy || s.last == nil || s.last.Status != 200 || stack.EventType(s.last) != "INVOKE" {
 							continue
+						}
+						if a.external == (len(seq)%3 == 0) {
+							continue // in a third of the sequences an internal extension is taken, in the others an external one
 						}
 						if len(seq)%2 == 1 {
 							// variant: the extension itself, busy with the event (Running), reports the exit error
